@@ -332,6 +332,9 @@ def render_project(rng, units, layout=None):
     # `src/test/java/` and *Test(s).java files are test code)
     prefix = rng.choice(["", "", "", "core/", "test/", "modules/test/"]) if layout == "maven" else ""
     for u in units:
+        if rng.random() < 0.03 and not u.get("header_comment"):
+            # a generated file with a very long first line (a licence / generator banner of 70 000 characters): a line has no length limit
+            u["header_comment"] = "// " + "generated " * 7000
         text, facts = javagen.render_unit(u, rng, wild=rng.choice([0.0, 0.0, 0.04, 0.1]), comments=["note", "run();", "new Foo()"])
         path = ("%ssrc/main/java/%s/%s.java" % (prefix, u["pkg"].replace(".", "/"), u["name"])) if layout == "maven" else ("%s_%s.java" % (u["pkg"].replace(".", "_"), u["name"]))
         built.append({"path": path, "text": text, "events": facts["events"], "facts": facts, "unit": u})
@@ -595,22 +598,37 @@ def raw_nested_case(rng):
         "keep": "    public void keep(int k) {\n        repository.save(k);\n    }\n",
     }
     order = ["field", "find", "keep"]
+    anon = rng.random() < 0.4
+    if anon:
+        # a method whose ANONYMOUS class declares, in its own method, a local with the field's name and another type: behind the
+        # anonymous class the name is the field again
+        parts["watch"] = ("    public void watch() {\n        Runnable r = new Runnable() {\n            public void run() {\n"
+                          "                Helper repository = lookup();\n                repository.reset();\n            }\n        };\n"
+                          "        repository.save(1);\n    }\n\n    static Helper lookup() {\n        return null;\n    }\n")
+        order.insert(rng.randrange(1, len(order) + 1), "watch")
     for _ in range(rng.choice([0, 1, 1, 2])):
         order.insert(rng.randrange(len(order) + 1), "nested%d" % rng.randrange(len(NESTED_TYPES)))
     body = "\n".join(parts[o] if o in parts else NESTED_TYPES[int(o[6:])] for o in order)
-    text = "package com.acme.app;\n\nimport com.acme.repo.BookRepository;\n\npublic class Shelf {\n" + body + "}\n"
+    text = "package com.acme.app;\n\nimport com.acme.repo.BookRepository;\n" + ("import com.acme.util.Helper;\n" if anon else "") + "\npublic class Shelf {\n" + body + "}\n"
     lines = text.split("\n")
     fns = []
     for name, callee in (("find", "load"), ("keep", "save")):
         dl = next(i for i, l in enumerate(lines) if (" %s(int k) {" % name) in l and "public" in l)
-        cl = next(i for i, l in enumerate(lines) if ("repository.%s(" % callee) in l)
+        cl = next(i for i, l in enumerate(lines) if i > dl and ("repository.%s(" % callee) in l)
         fns.append({"name": name, "fullStartLine": dl + 1, "calls": [{"kind": "call", "name": callee, "line": cl + 1, "col": lines[cl].index(callee), "recv": "repository",
                                                                        "meta": {"recvType": "BookRepository", "recvVar": "repository"}}]})
     files = {"src/main/java/com/acme/repo/BookRepository.java": repo, "src/main/java/com/acme/app/Shelf.java": text}
+    if anon:
+        files["src/main/java/com/acme/util/Helper.java"] = "package com.acme.util;\n\npublic class Helper {\n    public void reset() {\n    }\n}\n"
     truth = [{"path": "src/main/java/com/acme/app/Shelf.java", "pkg": "com.acme.app", "name": "Shelf", "kind": "class", "imports": ["com.acme.repo.BookRepository"],
               "functions": fns, "unit": {"_scope": {"BookRepository": "com.acme.repo"}}}]
-    return {"op": "full", "files": files, "units": [], "identKeys": ["com.acme.repo.BookRepository", "com.acme.app.Shelf"], "truth": truth, "unmodelled": True,
-            "cli": rng.random() < 0.1}
+    c = {"op": "full", "files": files, "units": [], "identKeys": ["com.acme.repo.BookRepository", "com.acme.app.Shelf"], "truth": truth, "unmodelled": True,
+         "cli": rng.random() < 0.1}
+    if anon:
+        c["identKeys"].append("com.acme.util.Helper")
+        c["expectReceivers"] = [{"pkg": "com.acme.app", "cls": "Shelf", "fn": "watch", "callee": "save", "var": "repository",
+                                 "want": ["com.acme.repo", "BookRepository"]}]
+    return c
 
 
 def gen_c02(rng, tier):
@@ -784,6 +802,21 @@ def oracle_c02(case, out, raw):
                     if g["FunctionName"] != "" or g["NodeName"] not in ok_names:
                         ds.append(("c02-creation", "%s.%s: creation of %s recorded as %s %s" % (t["name"], tf["name"], e["type"], g["NodeName"], g["FunctionName"])))
                         break
+    # (cases with constructs outside the positional ground truth: a named call of a named function and the type it is a call on)
+    for x in case.get("expectReceivers", []):
+        n = by.get((x["pkg"], x["cls"]))
+        if n is None:
+            continue
+        fs = [f for f in n["Functions"] if f["Name"] == x["fn"]]
+        if len(fs) != 1:
+            continue       # C01's business (a named nested type behind a method takes the function entries with it: outside C01's quantifier)
+        calls = [g for g in fs[0]["FunctionCalls"] if g["FunctionName"] == x["callee"]]
+        if not calls:
+            ds.append(("c02-call-count", "%s.%s: the call %s.%s() is written in its body and not recorded" % (x["cls"], x["fn"], x["var"], x["callee"])))
+        for g in calls:
+            if [g["Package"], g["NodeName"]] != x["want"]:
+                ds.append(("c02-receiver-resolution", "%s.%s: %s.%s() with the field %s declared as %s recorded against %s.%s" % (
+                    x["cls"], x["fn"], x["var"], x["callee"], x["var"], x["want"][1], g["Package"], g["NodeName"])))
     return dedup(ds)
 
 
